@@ -110,6 +110,11 @@ class ExprMixin(Core):
 
     def ev_Name(self, node, st):
         n = node.id
+        cc = self.cur_contract
+        if (st.mode == "code" and cc is not None and n in getattr(cc, "aliases", {}) and isinstance(node.ctx, ast.Load)
+                and self.fn_key_inner is None and n in st.env):
+            # declared alias of a mutable object reachable through another path: read through that path
+            return self.ev(cc.parsed(cc.aliases[n]), st)
         if n in st.env:
             return self.ok(st.env[n], st)
         return self.ok(self.global_name(n, st), st)
